@@ -13,7 +13,7 @@ use serde_json::json;
 use std::process::Command;
 
 fn opts_for(pi: usize, r: &mut Rng) -> Opts {
-    Opts { fragment: false, fault_pct: if pi % 3 == 2 { 100 } else { 0 }, max_stanzas: 4, allow_print: false, universal: r.chance(1, 2), probe: false, scoped_heavy: pi % 4 == 1 }
+    Opts { fragment: false, fault_pct: if pi % 3 == 2 { 100 } else { 0 }, max_stanzas: 4, allow_print: false, universal: r.chance(1, 2), probe: false, scoped_heavy: pi % 4 == 1, keywordish_names: false }
 }
 
 /// texts with one static fault (diagnostics must be reproducible too)
